@@ -1473,6 +1473,9 @@ class CanUnprotect(BaseSecurityContext):
             raise DecodeError("Protected data uses reserved fields")
 
         pivsz = firstbyte & COMPRESSION_BITS_N
+        if pivsz > 5:
+            # RFC 8613 Section 6.1: "The values 6 and 7 are reserved"
+            raise DecodeError("Protected data uses a reserved Partial IV length")
         if pivsz:
             if len(tail) < pivsz:
                 raise DecodeError("Partial IV announced but not present")
